@@ -20,7 +20,7 @@ UNESC_FAM = Family("c14-unescape", ["%41", "%zz", "%", "%u0041", "+", "a", "%e9"
                    wraps=[(b"unescape('", b"')"), (b"x=unescape('", b"');y"), (b"unescape('", b"') unescape('%42')")])
 U16_FAM = Family("c14-utf16", ["a\x00", "\xe9\x00", "\x00\x00", "\x7f\x00", "\x1f\x00", "\xff\x00", "\x09\x00", "a", "\x00",
                                "h\x00t\x00t\x00p\x00:\x00/\x00/\x00"], {"quick": 7, "thorough": 8})
-STREAM_FAMS = ["xml", "esc", "mix"]
+STREAM_FAMS = ["xml", "esc", "mix", "ctx"]
 
 
 def xml_full_set():
@@ -271,7 +271,7 @@ def run_unit(unit, rec):
                         run_u16(rec, data)
         rec.sample({"family": "utf16-all-code-units", "last": data})
     elif kind == "stream":
-        streams.run_unit(unit[1], rec, stream_monitor)
+        streams.run_unit(unit[1], rec, stream_monitor, repeat=2)
 
 
 def replay(w, rec):
